@@ -257,6 +257,8 @@ def unit_cvc_content(ctx):
                     combos.append((klen, la, lh, hat))
     if scale < 1.0:
         combos = combos[::max(1, int(round(1 / scale)))]
+    if not q:
+        combos = combos * 4          # fresh names, dates and access words each time
     for klen, la, lh, hat in combos:
         n += 1
         auth, hold = rname(r, la), rname(r, lh)
@@ -307,6 +309,11 @@ def unit_cvc_content(ctx):
         if (cs == 0) != selfsig and not (not selfsig and qs == qk):
             ctx.violation("btokCVCUnwrap:self-signed-form:%s" % ("refused" if selfsig else "accepted"),
                           "Unwrap(pubkey = cvc->pubkey, 0) %s" % errname(cs), det)
+        # documented refusal: pubkey_len == 0 with a pointer that is neither null nor cvc->pubkey
+        out_ = lib.alloc(CVC_SIZE)
+        cz = lib.btokCVCUnwrap(out_, lib.mk(cert), len(cert), lib.mk(qs), 0)
+        if cz == 0:
+            ctx.violation("btokCVCUnwrap:foreign-pubkey-with-zero-length-accepted", "header: an error is induced", det)
         # wrong verification key
         wk = env.keypair(len(ds), "wrong")[1]
         cw, _ = unwrap(lib, cert, wk)
@@ -327,7 +334,7 @@ def unit_cvc_content(ctx):
         m2 = lib.btokCVCMatch(pc, len(cert), lib.mk(env.keypair(klen, "wrong")[0]), klen)
         if m1 != 0 or m2 == 0:
             ctx.violation("btokCVCMatch:%s" % ("match-refused" if m1 else "mismatch-accepted"), "btokCVCMatch %s / %s" % (errname(m1), errname(m2)), det)
-        ctx.digest(cert, code0, code1, cs, cw, cw2, l1, l2, l3, m1, m2)
+        ctx.digest(cert, code0, code1, cs, cz != 0, cw, cw2, l1, l2, l3, m1, m2)
         lib.release()
     # contents that must be refused
     bad = []
@@ -791,8 +798,11 @@ def unit_sm(ctx):
             # response
             r0, _ = resp_wrap(lib, presp, st_ct)          # odd counter: refused
             lib.btokSMCtrInc(st_ct)
+            ua, _ = cmd_unwrap(lib, apdu, st_ct)          # receiver one step ahead (even): refused
+            if ua == 0:
+                ctx.violation("btokSMCmdUnwrap:wrong-parity-accepted:ahead-by-one", "command accepted at an even counter", det)
             r1, rap = resp_wrap(lib, presp, st_ct)
-            n_eval += 3
+            n_eval += 4
             if r0 == 0:
                 ctx.violation("btokSMRespWrap:wrong-parity-accepted:odd", "response protected at an odd counter", det)
             if r1 != 0:
@@ -819,7 +829,7 @@ def unit_sm(ctx):
                 if cu == 0:
                     ctx.violation("btokSMRespUnwrap:altered-octet-accepted:%s" % ("sw" if j >= len(rap) - 2 else "body"),
                                   "protected response with octet %d altered accepted" % j, dict(det, altered=bytes(alt), got=g))
-            dg += [r0 != 0, v0 != 0, y2 != 0, rap]
+            dg += [r0 != 0, ua != 0, v0 != 0, y2 != 0, rap]
             # free the per-pair scratch but keep the two states
             release_except(lib, (st_t, st_ct))
         ctx.count(n_eval, "sm:wrap-unwrap-calls")
